@@ -4,18 +4,21 @@
  * do_block) and checking payload copy routines. The stubs ARE the contracts:
  * they assert the callee's precondition at every call site, return every
  * outcome the contract permits, and log the call in ghost state so that a
- * harness can say which bytes the cache now holds.
+ * harness can say which bytes a cache now holds.
  *
  * Include AFTER <string.h>/<stdlib.h> and BEFORE the real translation unit.
  * ENV_PROP must be a string literal ("C10" / "C05"): prefix of the names of
  * the environment obligations.
  *
- * The image is an arbitrary byte string. It is deterministic: one witness
- * pair (g_img_off, g_img_val) says "image[g_img_off] == g_img_val"; every
- * read_at that covers that offset delivers that value. All other delivered
- * bytes are arbitrary (short buffers are filled byte by byte from the tape,
- * long ones keep their previous - arbitrary - contents except for one more
- * arbitrary position g_k).
+ * The image is an arbitrary byte string. Small reads (on-stack records) are
+ * filled completely from the tape, and are deterministic through the witness
+ * pair "image[g_img_off] == g_img_val". Payload reads (block buffers) keep
+ * the previous - arbitrary - contents of the buffer except at the witness
+ * position g_k, whose delivered value is logged; since g_k is arbitrary this
+ * stands for every byte of the payload.
+ *
+ * All ghost state lives in one object (g_e) so that a loop contract can name
+ * it in its assigns clause.
  */
 #ifndef RD_ENV_H
 #define RD_ENV_H
@@ -35,7 +38,7 @@
 #define ENV_LOG 4
 #endif
 #ifndef ENV_SMALL
-#define ENV_SMALL 40	/* read_at buffers up to this size are filled completely */
+#define ENV_SMALL 40	/* read_at records up to this size are filled completely */
 #endif
 #ifndef ENV_CPY_SMALL
 #define ENV_CPY_SMALL 0	/* memcpy/memset up to this size are done byte by byte */
@@ -64,19 +67,36 @@ typedef struct {
 	size_t n;
 } env_cpy_rec_t;
 
-static sqfs_u64 g_img_off;	/* witness: image[g_img_off] == g_img_val */
-static sqfs_u8 g_img_val;
-static size_t g_k;		/* witness position inside a payload buffer */
-static sqfs_u8 g_blk_val;	/* value do_block produced at position g_k */
+typedef struct {
+	sqfs_u64 img_off;	/* witness: image[img_off] == img_val */
+	sqfs_u8 img_val;
+	size_t k;		/* witness position inside a payload buffer */
+	sqfs_u8 blk_val;	/* value do_block produces at position k */
+	unsigned rd_n;		/* number of read_at calls */
+	env_read_rec_t rd[ENV_LOG];
+	unsigned blk_n;		/* number of do_block calls */
+	env_blk_rec_t blk[ENV_LOG];
+	unsigned cpy_n;		/* number of payload memcpy calls */
+	env_cpy_rec_t cpy[ENV_LOG];
+	unsigned set_n;		/* number of payload memset calls */
+	unsigned seq;		/* total number of environment calls */
+	bool fault;		/* some environment call reported an error */
+	bool cpy_handled;	/* ENV_ON_MEMCPY did the (witness) copy itself */
+} env_ghost_t;
 
-static unsigned g_rd_n;		/* number of read_at calls */
-static env_read_rec_t g_rd[ENV_LOG];
-static unsigned g_blk_n;	/* number of do_block calls */
-static env_blk_rec_t g_blk[ENV_LOG];
-static unsigned g_cpy_n;	/* number of payload memcpy calls */
-static env_cpy_rec_t g_cpy[ENV_LOG];
-static unsigned g_set_n;	/* number of payload memset calls */
-static unsigned g_env_seq;	/* total number of environment calls */
+static env_ghost_t g_e;
+#define g_img_off g_e.img_off
+#define g_img_val g_e.img_val
+#define g_k g_e.k
+#define g_blk_val g_e.blk_val
+#define g_rd_n g_e.rd_n
+#define g_rd g_e.rd
+#define g_blk_n g_e.blk_n
+#define g_blk g_e.blk
+#define g_cpy_n g_e.cpy_n
+#define g_cpy g_e.cpy
+#define g_set_n g_e.set_n
+#define g_env_seq g_e.seq
 
 static sqfs_file_t g_file;
 static sqfs_compressor_t g_cmp;
@@ -88,18 +108,37 @@ static void env_init(void)
 	g_k = verif_nd_size("k");
 	g_blk_val = verif_nd_u8("blk.val");
 	g_rd_n = g_blk_n = g_cpy_n = g_set_n = g_env_seq = 0;
+	g_e.fault = false;
 }
 
-/* the harness can hook every environment write (cache dirty tracking) */
-#ifndef ENV_ON_WRITE
+/* hooks a harness may define before including this file */
+#ifndef ENV_ON_WRITE		/* every environment write: (pointer, length) */
 #define ENV_ON_WRITE(p, n) ((void)0)
+#endif
+#ifndef ENV_ON_READ_AT		/* (offset, buffer, size) before the transfer */
+#define ENV_ON_READ_AT(off, buf, n) ((void)0)
+#endif
+#ifndef ENV_ON_DO_BLOCK		/* (in, size, out, outsize) */
+#define ENV_ON_DO_BLOCK(in, n, out, m) ((void)0)
+#endif
+#ifndef ENV_ON_MEMCPY		/* (dst, src, n); may set g_e.cpy_handled */
+#define ENV_ON_MEMCPY(d, s, n) ((void)0)
+#endif
+
+/* A harness whose payload buffer is reached through an expression CBMC
+ * cannot index efficiently (flexible array member inside a typed wrapper)
+ * maps the pointer to the equivalent typed lvalue here. */
+#ifndef ENV_REBASE
+#define ENV_REBASE(p) (p)
 #endif
 
 /* Which read_at destinations are payload buffers (large, only the witness
  * position is tracked) as opposed to small on-stack records that are filled
- * completely? Under CBMC the object size decides (statically known, so the
- * other branch is pruned); natively the transfer size, unless the harness
- * knows better. Both must agree for the tape to replay. */
+ * completely? The decision must be static for CBMC (otherwise both variants
+ * are explored for every call site, and forty guarded writes into an 8 KiB
+ * array cost five million SAT variables) and must be the same natively for
+ * the tape to replay. Default: object size under CBMC, transfer size natively;
+ * a harness that reads short pieces into a large buffer defines its own. */
 #ifndef ENV_IS_PAYLOAD
 #ifdef VERIF_REPLAY
 #define ENV_IS_PAYLOAD(p, n) ((n) > ENV_SMALL)
@@ -121,12 +160,13 @@ static int env_nd_error(const char *tag)
 static int stub_read_at(sqfs_file_t *file, sqfs_u64 offset,
 			void *buffer, size_t size)
 {
-	sqfs_u8 *b = buffer;
+	sqfs_u8 *b = ENV_REBASE(buffer);
 	bool fail;
 
 	VERIF_ASSERT(file == &g_file, ENV_NAME("read_at.file"));
 	VERIF_ASSERT(size == 0 || VERIF_W_OK(buffer, size),
 		     ENV_NAME("read_at.buffer_writable"));
+	ENV_ON_READ_AT(offset, buffer, size);
 	if (g_rd_n < ENV_LOG) {
 		g_rd[g_rd_n].off = offset;
 		g_rd[g_rd_n].buf = buffer;
@@ -137,11 +177,20 @@ static int stub_read_at(sqfs_file_t *file, sqfs_u64 offset,
 
 	/* delivered bytes (also on failure: the buffer is then arbitrary) */
 	if (!ENV_IS_PAYLOAD(buffer, size)) {
-		size_t i;
-		for (i = 0; i < ENV_SMALL; ++i) {
-			if (i < size)
-				b[i] = verif_nd_u8("read_at.byte");
-		}
+		/* unrolled by hand: a loop here would need a loop contract
+		   whenever the caller sits inside a contracted loop */
+		VERIF_ASSERT(size <= ENV_SMALL, ENV_NAME("read_at.small_record"));
+#define ENV_B1(i) if ((size_t)(i) < size) b[i] = verif_nd_u8("read_at.byte");
+#define ENV_B8(o) ENV_B1(o) ENV_B1(o + 1) ENV_B1(o + 2) ENV_B1(o + 3) \
+	ENV_B1(o + 4) ENV_B1(o + 5) ENV_B1(o + 6) ENV_B1(o + 7)
+		ENV_B8(0) ENV_B8(8) ENV_B8(16) ENV_B8(24) ENV_B8(32)
+#if ENV_SMALL > 40
+		ENV_B8(40) ENV_B8(48) ENV_B8(56) ENV_B8(64) ENV_B8(72)
+		ENV_B8(80) ENV_B8(88)
+#endif
+#if ENV_SMALL > 96
+#error "ENV_SMALL > 96 not supported"
+#endif
 	} else {
 		sqfs_u8 v = verif_nd_u8("read_at.vk");
 		if (g_k < size)
@@ -156,6 +205,7 @@ static int stub_read_at(sqfs_file_t *file, sqfs_u64 offset,
 		if (g_rd_n < ENV_LOG)
 			g_rd[g_rd_n].ret = e;
 		++g_rd_n;
+		g_e.fault = true;
 		return e;
 	}
 	/* determinism of the image (small reads only; a payload read is
@@ -180,14 +230,19 @@ static sqfs_s32 stub_do_block(sqfs_compressor_t *cmp, const sqfs_u8 *in,
 		     ENV_NAME("do_block.input_readable"));
 	VERIF_ASSERT(outsize == 0 || VERIF_W_OK(out, outsize),
 		     ENV_NAME("do_block.output_writable"));
+	ENV_ON_DO_BLOCK(in, size, out, outsize);
 	++g_env_seq;
 	ENV_ON_WRITE(out, outsize);
 
 	r = verif_nd_int("do_block.ret");
 	if (r > 0 && (sqfs_u32)r > outsize)
 		r = (sqfs_s32)(outsize <= 0x7FFFFFFF ? outsize : 0x7FFFFFFF);
-	if (r > 0 && g_k < (size_t)r)
-		out[g_k] = g_blk_val;
+	if (r > 0 && g_k < (size_t)r) {
+		sqfs_u8 *o = ENV_REBASE(out);
+		o[g_k] = g_blk_val;
+	}
+	if (r < 0)
+		g_e.fault = true;
 	if (g_blk_n < ENV_LOG) {
 		g_blk[g_blk_n].in = in;
 		g_blk[g_blk_n].n = size;
@@ -204,6 +259,8 @@ static void *verif_memcpy(void *dst, const void *src, size_t n)
 {
 	VERIF_ASSERT(n == 0 || VERIF_R_OK(src, n), ENV_NAME("memcpy.src_readable"));
 	VERIF_ASSERT(n == 0 || VERIF_W_OK(dst, n), ENV_NAME("memcpy.dst_writable"));
+	g_e.cpy_handled = false;
+	ENV_ON_MEMCPY(dst, src, n);
 	if (g_cpy_n < ENV_LOG) {
 		g_cpy[g_cpy_n].dst = dst;
 		g_cpy[g_cpy_n].src = src;
@@ -215,19 +272,31 @@ static void *verif_memcpy(void *dst, const void *src, size_t n)
 #ifdef VERIF_REPLAY
 	return (memcpy)(dst, src, n);
 #else
+	/* typed locals: a cast of the void pointer inside the index
+	   expression makes CBMC fall back to byte_update on the whole
+	   enclosing object. A hook that knows the typed lvalues behind the
+	   two pointers (after asserting that they are what it expects) may
+	   do the witness copy itself and set g_e.cpy_handled. */
+	if (g_e.cpy_handled)
+		return dst;
+#if ENV_CPY_SMALL > 0
 	if (n <= ENV_CPY_SMALL) {
+		sqfs_u8 *d = dst;
+		sqfs_u8 *s = (sqfs_u8 *)src;
 		size_t i;
 		for (i = 0; i < ENV_CPY_SMALL; ++i) {
-			if (i < n)
-				((sqfs_u8 *)dst)[i] = ((sqfs_u8 *)src)[i];
+			if (i < n) {
+				sqfs_u8 v = s[i];
+				d[i] = v;
+			}
 		}
-	} else {
-		if (g_k < n) {
-			sqfs_u8 *d = dst;
-			sqfs_u8 *s = (sqfs_u8 *)src;
-			sqfs_u8 v = s[g_k];
-			d[g_k] = v;
-		}
+	} else
+#endif
+	if (g_k < n) {
+		sqfs_u8 *d = ENV_REBASE(dst);
+		sqfs_u8 *s = ENV_REBASE((sqfs_u8 *)src);
+		sqfs_u8 v = s[g_k];
+		d[g_k] = v;
 	}
 	return dst;
 #endif
@@ -242,17 +311,19 @@ static void *verif_memset(void *dst, int c, size_t n)
 #ifdef VERIF_REPLAY
 	return (memset)(dst, c, n);
 #else
+#if ENV_CPY_SMALL > 0
 	if (n <= ENV_CPY_SMALL) {
+		sqfs_u8 *d = dst;
 		size_t i;
 		for (i = 0; i < ENV_CPY_SMALL; ++i) {
 			if (i < n)
-				((sqfs_u8 *)dst)[i] = (sqfs_u8)c;
+				d[i] = (sqfs_u8)c;
 		}
-	} else {
-		if (g_k < n) {
-			sqfs_u8 *d = dst;
-			d[g_k] = (sqfs_u8)c;
-		}
+	} else
+#endif
+	if (g_k < n) {
+		sqfs_u8 *d = ENV_REBASE(dst);
+		d[g_k] = (sqfs_u8)c;
 	}
 	return dst;
 #endif
